@@ -14,6 +14,11 @@ cfg comp=connect wi=3 wo=4                              cyc r1=1 r2=1 d1=13 d2=5
 cfg comp=crossbar n1=2 n2=2 wi=3 wo=4 order=0,1,2,3     cyc r1=11 r2=11 d1=13,14 d2=5,6 → run=1001 m1=5,6 m2=13,14
 cfg comp=collector n=3 w=4 order=0,1,2                  cyc trdy=011 tret=1,2,3 rd=0  → t=010 rd=-
 ```
+With competing callers of the targets (filter/product/tryproduct/collector): the cfg carries
+`cf=<bits>` (per target: the competitor precedes the transformer's transaction in the real
+priority order), every op `catt=<v|->,…` (attempted competitor calls); the answer gets
+` c=<bits>` (competitor executed) and `t=` is what the target received from whoever called it
+(collector: `t=` = targets called by the collector).
 `order` lists pair indices `i*n2+j` (crossbar) / target indices (collector) in the scheduling
 order read from the real manager; it must be a permutation of all of them (`bad-cfg` otherwise).
 -/
@@ -74,13 +79,13 @@ def tcombFun (w n : Nat) (code : String) : Option (List (Bool × Nat) → Nat) :
 inductive Cfg
   | none
   | map (ifun ofun : Nat → Nat)
-  | filter (uc : Bool) (cond : Nat → Nat) (dflt : Nat)
-  | product (n : Nat) (comb : List Nat → Nat)
-  | tryproduct (n : Nat) (comb : List (Bool × Nat) → Nat)
+  | filter (uc : Bool) (cond : Nat → Nat) (dflt : Nat) (cf : Option (List Bool))
+  | product (n : Nat) (comb : List Nat → Nat) (cf : Option (List Bool))
+  | tryproduct (n : Nat) (comb : List (Bool × Nat) → Nat) (cf : Option (List Bool))
   | nonex (k : Nat)
   | connect
   | crossbar (n1 n2 : Nat) (order : List (Nat × Nat))
-  | collector (n : Nat) (order : List Nat) (s : CState)
+  | collector (n : Nat) (order : List Nat) (cf : Option (List Bool)) (s : CState)
 
 def isPerm (l : List Nat) (n : Nat) : Bool :=
   l.length == n && (List.range n).all (fun k => l.contains k)
@@ -108,6 +113,28 @@ def callOf (t : List String) (key : String) : Option (Option Nat) :=
 def showOptList (l : List (Option Nat)) : String := ",".intercalate (l.map showOpt)
 def showBits (l : List Bool) : String := String.join (l.map showBool)
 
+/-- optional `cf=<bits>`: per target, does its competing caller precede the transformer's transaction?
+    `some none` = no competitors; `none` = garbled or wrong length -/
+def cfOf (t : List String) (n : Nat) : Option (Option (List Bool)) :=
+  match kv? t "cf" with
+  | none => some none
+  | some v => match bits? v with
+    | some b => if b.length == n then some (some b) else none
+    | none => none
+
+/-- competitors of a cycle: with `cf`, the op line must carry `catt=<v|->,…` of the right length -/
+def compsOf (t : List String) (n : Nat) (cf : Option (List Bool)) : Option (List CompIn) :=
+  match cf with
+  | none => some ((List.replicate n false).map fun f => { first := f, att := none })
+  | some fs => do
+    let a ← (kv? t "catt").bind optList?
+    if a.length != n then none else pure ((fs.zip a).map fun x => { first := x.1, att := x.2 })
+
+def compSuffix (cf : Option (List Bool)) (cd : List Bool) : String :=
+  match cf with
+  | none => ""
+  | some _ => s!" c={showBits cd}"
+
 def parseCfg (t : List String) : Option Cfg := do
   let comp ← kv? t "comp"
   match comp with
@@ -120,17 +147,20 @@ def parseCfg (t : List String) : Option Cfg := do
     let c ← (kv? t "cond").bind condFun
     let d ← nat? t "def"
     let uc ← nat? t "uc"
-    pure (Cfg.filter (uc == 1) c d)
+    let cf ← cfOf t 1
+    pure (Cfg.filter (uc == 1) c d cf)
   | "product" =>
     let w ← nat? t "w"
     let n ← nat? t "n"
     let c ← (kv? t "comb").bind (combFun w)
-    if n = 0 then none else pure (Cfg.product n c)
+    let cf ← cfOf t n
+    if n = 0 then none else pure (Cfg.product n c cf)
   | "tryproduct" =>
     let w ← nat? t "w"
     let n ← nat? t "n"
     let c ← (kv? t "comb").bind (tcombFun w n)
-    pure (Cfg.tryproduct n c)
+    let cf ← cfOf t n
+    pure (Cfg.tryproduct n c cf)
   | "nonex" =>
     let k ← nat? t "k"
     pure (Cfg.nonex k)
@@ -144,7 +174,8 @@ def parseCfg (t : List String) : Option Cfg := do
   | "collector" =>
     let n ← nat? t "n"
     let o ← natsOf t "order"
-    if !isPerm o n then none else pure (Cfg.collector n o cInit)
+    let cf ← cfOf t n
+    if !isPerm o n then none else pure (Cfg.collector n o cf cInit)
   | _ => none
 
 def uIn? (t : List String) : Option UIn := do
@@ -165,20 +196,24 @@ def stepCyc (c : Cfg) (t : List String) : Option (Cfg × String) :=
     let i ← uIn? t
     let o := mapStep f g i
     pure (c, s!"m={showOpt o.res} t={showOpt o.tcall}")
-  | .filter uc cond d => do
+  | .filter uc cond d cf => do
     let i ← uIn? t
-    let o := filterStep uc cond d i
-    pure (c, s!"m={showOpt o.res} t={showOpt o.tcall}")
-  | .product n comb => do
+    let cs ← compsOf t 1 cf
+    let cp ← cs.head?
+    let o := filterCompStep uc cond d i cp
+    pure (c, s!"m={showOpt o.res} t={showOpt o.seen}{compSuffix cf [o.comp]}")
+  | .product n comb cf => do
     let call ← callOf t "call"
     let tg ← tgts? t n "trdy" "tret"
-    let o := productStep comb { call := call, tgts := tg }
-    pure (c, s!"m={showOpt o.res} t={showOptList o.tcalls}")
-  | .tryproduct n comb => do
+    let cs ← compsOf t n cf
+    let o := withComps (productStep comb) { call := call, tgts := tg } cs
+    pure (c, s!"m={showOpt o.res} t={showOptList o.seen}{compSuffix cf o.comp}")
+  | .tryproduct n comb cf => do
     let call ← callOf t "call"
     let tg ← tgts? t n "trdy" "tret"
-    let o := tryProductStep comb { call := call, tgts := tg }
-    pure (c, s!"m={showOpt o.res} t={showOptList o.tcalls}")
+    let cs ← compsOf t n cf
+    let o := withComps (tryProductStep comb) { call := call, tgts := tg } cs
+    pure (c, s!"m={showOpt o.res} t={showOptList o.seen}{compSuffix cf o.comp}")
   | .nonex k => do
     let calls ← (kv? t "calls").bind optList?
     let r ← nat? t "trdy"
@@ -203,13 +238,14 @@ def stepCyc (c : Cfg) (t : List String) : Option (Cfg × String) :=
     let a1 := (List.range n1).map (xArg1 order i)
     let a2 := (List.range n2).map (xArg2 order i)
     pure (c, s!"run={showBits runBits} m1={showOptList a1} m2={showOptList a2}")
-  | .collector n order s => do
+  | .collector n order cf s => do
     let tg ← tgts? t n "trdy" "tret"
     let rd ← nat? t "rd"
+    let cs ← compsOf t n cf
     if rd > 1 then none else
-    let (s', o) := collectorStep order s { tgts := tg, rd := rd == 1 }
+    let (s', o, cd) := collectorCompStep order s { tgts := tg, rd := rd == 1 } cs
     let called := (List.range n).map fun k => (o.called.map (·.1)) == some k
-    pure (Cfg.collector n order s', s!"t={showBits called} rd={showOpt o.rd}")
+    pure (Cfg.collector n order cf s', s!"t={showBits called} rd={showOpt o.rd}{compSuffix cf cd}")
 
 def stepLine (c : Cfg) (line : String) : Cfg × String :=
   let t := tokens line
